@@ -265,7 +265,7 @@ class EmitV3(V3Unit):
             chk(("C12",), DISC, "raises", "a-discovery-reply-without-bindings-is-refused", exc is not None and exc_is(exc, snmp) and len(sent) == 1)
             return "refused"
         if len(sent) == 1:
-            chk(("C07", "C12"), DISC, "raises", "only-InvalidResponseId-and-only-for-a-foreign-message-id",
+            chk(("C07", "C12", "C05"), DISC, "raises", "only-InvalidResponseId-and-only-for-a-foreign-message-id",
                 And(exc is not None and exc_is(exc, inv), Not(same_id)))
             return "refused"
         chk(("C07", "C12"), DISC, "ensures", "a-discovery-reply-is-accepted-only-with-the-probes-message-id", same_id)
@@ -635,7 +635,7 @@ class ReceiveV3(V3Unit):
             chk(("C10", "C06"), T, "ensures", "an-authentic-minimal-BER-response-of-the-users-level-is-accepted", exc is None,
                 known=lens127, finding="D9")
             if exc is None:
-                vbs = content.fields.get("varbinds")
+                vbs = content.fields.get("varbinds") if isinstance(content, Obj) else None
                 chk(("C10", "C11", "C06"), T, "ensures", "and-decoded-to-the-bindings-sent",
                     isinstance(vbs, list) and len(vbs) == self.k and And(
                         *[And(interp.eq(vbs[i][0], oids[i]), interp.eq(vbs[i][1], vals[i])) for i in range(len(vbs))]))
@@ -672,7 +672,7 @@ class ReceiveV3(V3Unit):
                         And(interp.eq(key, SBytes(kpriv)), interp.eq(eid, E), interp.eq(boots, B), interp.eq(etime, Tm),
                             interp.eq(salt, privp), interp.eq(data, payload_in.content)))
             chk(("C08",), T, "ensures", "a-non-zero-error-status-never-returns-data", es.eq(0))
-            f = content.fields
+            f = content.fields if isinstance(content, Obj) else {}
             vbs = f.get("varbinds")
             ok = isinstance(vbs, list) and len(vbs) == self.k
             chk(("C06", "C09"), T, "ensures", "returned-PDU-has-the-request-id-error-fields-and-bindings-sent",
@@ -688,6 +688,135 @@ class ReceiveV3(V3Unit):
         # (the plug-in model decrypts to a well-formed scoped PDU, so a DecryptionError here is not a decryption problem)
         chk(("C08", "C11"), T, "raises", "an-agent-error-is-not-turned-into-a-DecryptionError", exc.cls.name != "DecryptionError")
         return "raises:" + exc.cls.name
+
+
+class ReencodeV3(V3Unit):
+    """C06, second sentence: decoding a scoped PDU, a security-parameter block or a whole SNMPv3 message (every definite
+    length form, all leaves symbolic) yields the fields sent, and re-encoding the decoded object yields an encoding of
+    the same content (structures the client builds anew get x690's length octets, decoded leaves keep their octets)."""
+    props = ("C06",)
+    label = "proved-shape-bounded(binding list of the enumerated length; every leaf symbolic; any definite length forms)"
+
+    def __init__(self, what, k=1, encrypted=False):
+        self.what, self.k, self.encrypted = what, k, encrypted
+        self.target = {"scoped-pdu": "puresnmp.adt:ScopedPDU.decode", "security-parameters":
+                       "puresnmp_plugins.security.usm:USMSecurityParameters.decode", "message": "puresnmp.adt:Message.decode"}[what]
+        self.functions = (self.target, "puresnmp.adt:ScopedPDU.__bytes__", "puresnmp.adt:ScopedPDU.as_snmp_type",
+                          "puresnmp_plugins.security.usm:USMSecurityParameters.from_snmp_type",
+                          "puresnmp_plugins.security.usm:USMSecurityParameters.as_snmp_type", "puresnmp.adt:Message.from_sequence",
+                          "puresnmp.adt:Message.__bytes__", "puresnmp.adt:HeaderData.as_snmp_type", "puresnmp.adt:V3Flags.decode",
+                          "puresnmp.adt:V3Flags.__bytes__", "puresnmp.pdu:PDU.decode_raw")
+        self.name = "v3 decode + re-encode[%s%s, %d bindings]" % (what, ", encrypted payload" if encrypted else "", k)
+
+    def run(self, interp):
+        ctx, rt = interp.ctx, self.rt
+        w = rt.wire
+        FA = rfc.Forms("any", ctx)
+        FX = rfc.Forms("x690")
+        T = self.target
+        rid, es, ei = ctx.fresh_int("rid"), ctx.fresh_int("error_status"), ctx.fresh_int("error_index")
+        oids = [ctx.fresh_oid("oid%d" % i) for i in range(self.k)]
+        vals = [self.xv.fresh(ctx, "val%d" % i) for i in range(self.k)]
+        ce, cn = ctx.fresh_bytes("ctx_engine"), ctx.fresh_bytes("ctx_name")
+        ctx.assume(es.eq(0))          # (agent error statuses are C08's)
+        pdu_in = rfc.pdu(rfc.RESPONSE, rid, es, ei, [(o, WVal(v)) for o, v in zip(oids, vals)], FA)
+        scoped_in = rfc.scoped_pdu(ce, cn, pdu_in, FA)
+        E, B, Tm = ctx.fresh_bytes("engine_id"), ctx.fresh_int("boots"), ctx.fresh_int("time")
+        user, authp, privp = ctx.fresh_bytes("user"), ctx.fresh_bytes("auth_params"), ctx.fresh_bytes("priv_params")
+        sp_in = rfc.usm_params(E, B, Tm, user, authp, privp, FA)
+
+        def call(fn_spec, *args):
+            try:
+                return interp.call(get_func(rt, interp, fn_spec), list(args), {}), None
+            except PyExc as pe:
+                return None, pe.obj
+
+        def same(a, b):
+            return interp.eq(a, b)
+        if self.what == "scoped-pdu":
+            obj, exc = call(T, scoped_in)
+            ctx.check(oname("C06", T, "ensures", "a-well-formed-scoped-PDU-is-decoded"), exc is None)
+            if exc is not None:
+                return "raises"
+            f = obj.fields
+            ctx.check(oname("C06", T, "ensures", "context-engine-id-and-context-name-as-sent"),
+                      And(same(rt.getattr(interp, f["context_engine_id"], "value"), ce), same(rt.getattr(interp, f["context_name"], "value"), cn)))
+            content = rt.getattr(interp, f["data"], "value")
+            vbs = content.fields.get("varbinds")
+            ok = isinstance(vbs, list) and len(vbs) == self.k
+            ctx.check(oname("C06", T, "ensures", "pdu-fields-and-bindings-as-sent"),
+                      ok and And(same(content.fields.get("request_id"), rid),
+                                 *[And(same(vbs[i][0], oids[i]), same(vbs[i][1], vals[i])) for i in range(self.k)]))
+            out = interp.call(rt.getattr(interp, obj, "__bytes__"), [], {})
+            want = rfc.tlv(rfc.SEQ, WCat([rfc.t_octets(ce, FX), rfc.t_octets(cn, FX), rfc.tlv(pdu_in.ident, pdu_in.content, FX)]), FX)
+            ctx.check(oname("C06", "puresnmp.adt:ScopedPDU.__bytes__", "ensures", "re-encoding-keeps-the-content"),
+                      lift_bool(w.z(out) == w.z(want)))
+            return "returns"
+        if self.what == "security-parameters":
+            obj, exc = call(T, sp_in)
+            ctx.check(oname("C06", T, "ensures", "a-well-formed-block-is-decoded"), exc is None)
+            if exc is not None:
+                return "raises"
+            f = obj.fields
+            ctx.check(oname("C06", T, "ensures", "six-fields-as-sent"),
+                      And(same(f["authoritative_engine_id"], E), same(f["authoritative_engine_boots"], B),
+                          same(f["authoritative_engine_time"], Tm), same(f["user_name"], user), same(f["auth_params"], authp),
+                          same(f["priv_params"], privp)))
+            out = interp.call(rt.getattr(interp, obj, "__bytes__"), [], {})
+            ctx.check(oname("C06", "puresnmp_plugins.security.usm:USMSecurityParameters.__bytes__", "ensures", "re-encoding-keeps-the-content"),
+                      lift_bool(w.z(out) == w.z(rfc.usm_params(E, B, Tm, user, authp, privp, FX))))
+            return "returns"
+        # whole message
+        msgid, maxsize, flags = ctx.fresh_int("msg_id"), ctx.fresh_int("max_size"), ctx.fresh_int("msg_flags")
+        ctx.assume(And(flags >= 0, flags < 8))
+        # well-formed: the privacy flag says whether the payload is the encrypted octet string (RFC 3412 6.4)
+        ctx.assume(lift_bool((((flags.e / 2) % 2) == 1) == z3.BoolVal(self.encrypted)))
+        if self.encrypted:
+            ct = ctx.fresh_bytes("ciphertext")
+            payload_in = rfc.t_octets(ct, FA)
+        else:
+            payload_in = scoped_in
+        raw = rfc.v3_message(msgid, maxsize, flags, 3, sp_in, payload_in, FA)
+        obj, exc = call(T, raw)
+        ctx.check(oname("C06", T, "ensures", "a-well-formed-message-is-decoded"), exc is None)
+        if exc is not None:
+            return "raises"
+        ctx.check(oname("C06", T, "ensures", "plain-or-encrypted-class-by-the-payload"),
+                  obj.cls.name == ("EncryptedMessage" if self.encrypted else "PlainMessage"))
+        hdr = obj.fields["header"].fields
+        fl = hdr["flags"].fields
+        ctx.check(oname("C06", T, "ensures", "header-fields-as-sent"),
+                  And(same(hdr["message_id"], msgid), same(hdr["message_max_size"], maxsize), same(hdr["security_model"], 3),
+                      interp.truth_sym(fl["auth"]) == lift_bool((flags.e % 2) == 1) if False else True))
+        ctx.check(oname("C06", T, "ensures", "flags-as-sent"),
+                  And(_iff(interp, fl["auth"], lift_bool((flags.e % 2) == 1)), _iff(interp, fl["priv"], lift_bool(((flags.e / 2) % 2) == 1)),
+                      _iff(interp, fl["reportable"], lift_bool(((flags.e / 4) % 2) == 1))))
+        ctx.check(oname("C06", T, "ensures", "security-parameters-octets-as-sent"), same(obj.fields["security_parameters"], sp_in))
+        out = interp.call(rt.getattr(interp, obj, "__bytes__"), [], {})
+        if self.encrypted:
+            pl = rfc.t_octets(ct, FX)
+        else:
+            pl = rfc.tlv(rfc.SEQ, WCat([rfc.t_octets(ce, FX), rfc.t_octets(cn, FX), rfc.tlv(pdu_in.ident, pdu_in.content, FX)]), FX)
+        want = rfc.tlv(rfc.SEQ, WCat([rfc.t_int(3, FX), rfc.t_seq([rfc.t_int(msgid, FX), rfc.t_int(maxsize, FX),
+                                                                   rfc.t_octets(WByte(flags), FX), rfc.t_int(3, FX)], FX),
+                                      rfc.t_octets(sp_in, FX), pl]), FX)
+        ctx.check(oname("C06", "puresnmp.adt:Message.__bytes__", "ensures", "re-encoding-keeps-the-content"),
+                  lift_bool(w.z(out) == w.z(want)))
+        return "returns"
+
+
+def _iff(interp, a, b):
+    a = interp.truth_sym(a)
+    return And(Or(Not(a), b), Or(Not(b), a))
+
+
+def units_reencode(tier):
+    ks = (0, 1, 2) if tier == "quick" else (0, 1, 2, 3)
+    out = [ReencodeV3("security-parameters")]
+    for k in ks:
+        out.append(ReencodeV3("scoped-pdu", k))
+    out += [ReencodeV3("message", 1), ReencodeV3("message", 1, encrypted=True), ReencodeV3("message", 2)]
+    return out
 
 
 class EncodeLength(VU):
